@@ -852,7 +852,7 @@ func evalActionAdd(node *ActionExpression, env *Environment) Object {
 		return addObj.Add(val)
 	}
 
-	return UNDEFINED
+	return newError("ADD supports top-level attributes only: %s", node.Left.String())
 }
 
 func evalActionDelete(node *ActionExpression, env *Environment) Object {
@@ -881,7 +881,7 @@ func evalActionDelete(node *ActionExpression, env *Environment) Object {
 		return addObj.Delete(val)
 	}
 
-	return UNDEFINED
+	return newError("DELETE supports top-level attributes only: %s", node.Left.String())
 }
 
 func evalActionRemove(node *ActionExpression, env *Environment) Object {
